@@ -77,3 +77,284 @@ pub open spec fn collect_spec(r: Remover, parts: Seq<crate::parser::ContentPart>
         }
     }
 }
+
+// ---- well-formedness of the forests collect_spec builds ----
+/// every strategy's builder keeps its structural promise on well-formed elements (established for the two concrete
+/// builders in the glue unit; for `dyn` builders it is the trait contract of MarkerBuilder::build lifted to spec_build)
+pub open spec fn strategies_ok(s: Seq<(Box<dyn crate::availability::MarkerAvailability>, Box<dyn crate::builder::MarkerBuilder>)>) -> bool {
+    forall|i: int, el: crate::parser::Element| 0 <= i < s.len() && el_wf(el) ==> builder_ok(el, #[trigger] s[i].1.spec_build(el))
+}
+pub proof fn lemma_create_spec_ok(s: Seq<(Box<dyn crate::availability::MarkerAvailability>, Box<dyn crate::builder::MarkerBuilder>)>, el: crate::parser::Element)
+    requires strategies_ok(s), el_wf(el),
+    ensures create_spec(s, el) matches Some(x) ==> builder_ok(el, x),
+{
+    if exists|i: int| crate::factory::first_available(s, el, i) {
+        let i = choose|i: int| crate::factory::first_available(s, el, i);
+        assert(builder_ok(el, s[i].1.spec_build(el)));
+    }
+}
+pub proof fn lemma_wf_forest_weaken(f: Seq<GTree>, lo: int, hi: int, lo2: int, hi2: int)
+    requires wf_forest(f, lo, hi), lo2 <= lo, hi <= hi2,
+    ensures wf_forest(f, lo2, hi2),
+{}
+/// two forests side by side
+pub proof fn lemma_wf_forest_add(f: Seq<GTree>, g: Seq<GTree>, lo: int, mid: int, hi: int)
+    requires wf_forest(f, lo, mid + 1), wf_forest(g, mid - 1, hi), lo < mid < hi,
+    ensures wf_forest(f + g, lo, hi),
+{
+    let r = f + g;
+    assert forall|i: int| 0 <= i < r.len() implies lo < node_lo(#[trigger] r[i]) && node_hi(r[i]) < hi && node_ranges_ok(r[i])
+        && wf_forest(r[i].children, node_lo(r[i]), node_hi(r[i])) by {
+        if i < f.len() { assert(r[i] == f[i]); } else { assert(r[i] == g[i - f.len()]); }
+    }
+    assert forall|i: int, j: int| 0 <= i < j < r.len() implies node_hi(#[trigger] r[i]) <= node_lo(#[trigger] r[j]) by {
+        if j < f.len() { assert(r[i] == f[i] && r[j] == f[j]); }
+        else if i >= f.len() { assert(r[i] == g[i - f.len()] && r[j] == g[j - f.len()]); }
+        else { assert(r[i] == f[i] && r[j] == g[j - f.len()]); }
+    }
+}
+pub proof fn lemma_wf_forest_push(f: Seq<GTree>, t: GTree, lo: int, mid: int, hi: int)
+    requires wf_forest(f, lo, mid + 1), mid <= node_lo(t), lo < node_lo(t), node_hi(t) < hi, node_ranges_ok(t), wf_forest(t.children, node_lo(t), node_hi(t)),
+    ensures wf_forest(f.push(t), lo, hi),
+{
+    let r = f.push(t);
+    assert forall|i: int| 0 <= i < r.len() implies lo < node_lo(#[trigger] r[i]) && node_hi(r[i]) < hi && node_ranges_ok(r[i])
+        && wf_forest(r[i].children, node_lo(r[i]), node_hi(r[i])) by {
+        if i < f.len() { assert(r[i] == f[i]); }
+    }
+    assert forall|i: int, j: int| 0 <= i < j < r.len() implies node_hi(#[trigger] r[i]) <= node_lo(#[trigger] r[j]) by {
+        if j < f.len() { assert(r[i] == f[i] && r[j] == f[j]); } else { assert(r[i] == f[i]); }
+    }
+}
+pub proof fn lemma_parts_wf_prefix(parts: Seq<crate::parser::ContentPart>, a: int, b: int)
+    requires parts_wf(parts, a, b), parts.len() > 0,
+    ensures parts_wf(parts.drop_last(), a, if parts.len() > 1 { part_hi(parts[parts.len() - 2]) } else { a }),
+        (if parts.len() > 1 { part_hi(parts[parts.len() - 2]) } else { a }) <= part_lo(parts.last()),
+        a <= (if parts.len() > 1 { part_hi(parts[parts.len() - 2]) } else { a }),
+{
+    let g = parts.drop_last();
+    let n = parts.len() as int;
+    let m = if n > 1 { part_hi(parts[n - 2]) } else { a };
+    assert forall|i: int| 0 <= i < g.len() implies a <= part_lo(#[trigger] g[i]) <= part_hi(g[i]) <= m by {
+        assert(g[i] == parts[i]);
+        if i < n - 2 { assert(part_hi(parts[i]) <= part_lo(parts[n - 2])); }
+    }
+    assert forall|i: int, j: int| 0 <= i < j < g.len() implies part_hi(#[trigger] g[i]) <= part_lo(#[trigger] g[j]) by { assert(g[i] == parts[i] && g[j] == parts[j]); }
+    assert forall|i: int| 0 <= i < g.len() implies (#[trigger] g[i] matches crate::parser::ContentPart::Element(el) ==>
+            el_wf(el) && parts_wf(el.children@, el.start_token.byte_end as int, el.end_token.byte_start as int)) by { assert(g[i] == parts[i]); }
+    if n > 1 { assert(part_hi(parts[n - 2]) <= part_lo(parts[n - 1])); }
+}
+
+/// both forests of collect_spec lie in [a, b] and are well formed when the parts are (the parser contract) and the
+/// strategies keep their promise
+pub proof fn lemma_collect_wf(r: Remover, parts: Seq<crate::parser::ContentPart>, pending: bool, a: int, b: int)
+    requires parts_wf(parts, a, b), a <= b, strategies_ok(r.remove_strategies@),
+    ensures wf_forest(collect_spec(r, parts, pending).0, a - 1, b + 1), wf_forest(collect_spec(r, parts, pending).1, a - 1, b + 1),
+    decreases parts,
+{
+    if parts.len() > 0 {
+        let n = parts.len() as int;
+        let g = parts.drop_last();
+        let m = if n > 1 { part_hi(parts[n - 2]) } else { a };
+        lemma_parts_wf_prefix(parts, a, b);
+        lemma_collect_wf(r, g, pending, a, m);
+        let prev = collect_spec(r, g, pending);
+        assert(parts.last() == parts[n - 1]);
+        match parts.last() {
+            crate::parser::ContentPart::Text(_) => {
+                lemma_wf_forest_weaken(prev.0, a - 1, m + 1, a - 1, b + 1);
+                lemma_wf_forest_weaken(prev.1, a - 1, m + 1, a - 1, b + 1);
+            },
+            crate::parser::ContentPart::Element(el) => {
+                let ts = el.start_token.byte_start as int; let te = el.start_token.byte_end as int;
+                let es = el.end_token.byte_start as int; let ee = el.end_token.byte_end as int;
+                assert(el_wf(el) && parts_wf(el.children@, te, es));
+                assert(m <= ts && ee <= b);
+                lemma_collect_wf(r, el.children@, pending, te, es);
+                let ch = collect_spec(r, el.children@, pending);
+                match elem_status(r, el, pending) {
+                    Some(st) => {
+                        lemma_create_spec_ok(r.remove_strategies@, el);
+                        let t = GTree { range: st.0, children: if st.1 { ch.0 } else { ch.1 } };
+                        assert(builder_ok(el, st.0));
+                        assert(node_lo(t) == ts && node_hi(t) == ee && node_ranges_ok(t));
+                        if st.1 {
+                            lemma_wf_forest_weaken(ch.0, te - 1, es + 1, ts, ee);
+                            lemma_wf_forest_push(prev.0, t, a - 1, m, b + 1);
+                            lemma_wf_forest_weaken(ch.1, te - 1, es + 1, m - 1, b + 1);
+                            lemma_wf_forest_add(prev.1, ch.1, a - 1, m, b + 1);
+                        } else {
+                            lemma_wf_forest_weaken(ch.1, te - 1, es + 1, ts, ee);
+                            lemma_wf_forest_push(prev.1, t, a - 1, m, b + 1);
+                            lemma_wf_forest_weaken(ch.0, te - 1, es + 1, m - 1, b + 1);
+                            lemma_wf_forest_add(prev.0, ch.0, a - 1, m, b + 1);
+                        }
+                    },
+                    None => {
+                        lemma_wf_forest_weaken(ch.0, te - 1, es + 1, m - 1, b + 1);
+                        lemma_wf_forest_add(prev.0, ch.0, a - 1, m, b + 1);
+                        lemma_wf_forest_weaken(ch.1, te - 1, es + 1, m - 1, b + 1);
+                        lemma_wf_forest_add(prev.1, ch.1, a - 1, m, b + 1);
+                    },
+                }
+            },
+        }
+    }
+}
+
+// ---- endpoints of the forests are character boundaries of the content ----
+pub open spec fn pos_ok(b: Seq<u8>, x: usize) -> bool { x <= b.len() && cb(b, x as int) }
+pub open spec fn el_on_b(el: crate::parser::Element, b: Seq<u8>) -> bool {
+    pos_ok(b, el.start_token.byte_start) && pos_ok(b, el.start_token.byte_end) && pos_ok(b, el.end_token.byte_start) && pos_ok(b, el.end_token.byte_end)
+}
+pub open spec fn parts_on_b(parts: Seq<crate::parser::ContentPart>, b: Seq<u8>) -> bool
+    decreases parts,
+{
+    forall|i: int| 0 <= i < parts.len() ==> (#[trigger] parts[i] matches crate::parser::ContentPart::Element(el) ==> el_on_b(el, b) && parts_on_b(el.children@, b))
+}
+pub open spec fn range_on_b(rng: RemovableRange, b: Seq<u8>) -> bool {
+    pos_ok(b, rng.0.start) && pos_ok(b, rng.0.end) && (rng.1 matches Some(e) ==> pos_ok(b, e.start) && pos_ok(b, e.end))
+}
+pub open spec fn strategies_bounded(s: Seq<(Box<dyn crate::availability::MarkerAvailability>, Box<dyn crate::builder::MarkerBuilder>)>, b: Seq<u8>) -> bool {
+    forall|i: int, el: crate::parser::Element| 0 <= i < s.len() && el_wf(el) && el_on_b(el, b) ==> range_on_b(#[trigger] s[i].1.spec_build(el), b)
+}
+pub open spec fn forest_on_b(f: Seq<GTree>, b: Seq<u8>) -> bool {
+    forall|x: usize| #[trigger] forest_endpoint(f, x) ==> pos_ok(b, x)
+}
+pub proof fn lemma_forest_on_b_add(f: Seq<GTree>, g: Seq<GTree>, b: Seq<u8>)
+    requires forest_on_b(f, b), forest_on_b(g, b),
+    ensures forest_on_b(f + g, b),
+{
+    let r = f + g;
+    assert forall|x: usize| #[trigger] forest_endpoint(r, x) implies pos_ok(b, x) by {
+        let i = choose|i: int| 0 <= i < r.len() && (node_self_endpoint(#[trigger] r[i], x) || forest_endpoint(r[i].children, x));
+        if i < f.len() { assert(r[i] == f[i]); assert(forest_endpoint(f, x)); }
+        else { assert(r[i] == g[i - f.len()]); assert(forest_endpoint(g, x)); }
+    }
+}
+pub proof fn lemma_forest_on_b_push(f: Seq<GTree>, t: GTree, b: Seq<u8>)
+    requires forest_on_b(f, b), range_on_b(t.range, b), forest_on_b(t.children, b),
+    ensures forest_on_b(f.push(t), b),
+{
+    let r = f.push(t);
+    assert forall|x: usize| #[trigger] forest_endpoint(r, x) implies pos_ok(b, x) by {
+        let i = choose|i: int| 0 <= i < r.len() && (node_self_endpoint(#[trigger] r[i], x) || forest_endpoint(r[i].children, x));
+        if i < f.len() { assert(r[i] == f[i]); assert(forest_endpoint(f, x)); }
+        else { assert(r[i] == t); }
+    }
+}
+pub proof fn lemma_collect_on_b(r: Remover, parts: Seq<crate::parser::ContentPart>, pending: bool, b: Seq<u8>)
+    requires all_el_wf(parts), parts_on_b(parts, b), strategies_bounded(r.remove_strategies@, b),
+    ensures forest_on_b(collect_spec(r, parts, pending).0, b), forest_on_b(collect_spec(r, parts, pending).1, b),
+    decreases parts,
+{
+    if parts.len() > 0 {
+        let n = parts.len() as int;
+        let g = parts.drop_last();
+        assert(all_el_wf(g) && parts_on_b(g, b)) by {
+            assert forall|i: int| 0 <= i < g.len() implies (#[trigger] g[i] matches crate::parser::ContentPart::Element(el) ==> el_wf(el) && all_el_wf(el.children@) && el_on_b(el, b) && parts_on_b(el.children@, b)) by { assert(g[i] == parts[i]); }
+        }
+        lemma_collect_on_b(r, g, pending, b);
+        let prev = collect_spec(r, g, pending);
+        assert(parts.last() == parts[n - 1]);
+        match parts.last() {
+            crate::parser::ContentPart::Text(_) => {},
+            crate::parser::ContentPart::Element(el) => {
+                lemma_collect_on_b(r, el.children@, pending, b);
+                let ch = collect_spec(r, el.children@, pending);
+                match elem_status(r, el, pending) {
+                    Some(st) => {
+                        let s = r.remove_strategies@;
+                        assert(range_on_b(st.0, b)) by {
+                            let i = choose|i: int| crate::factory::first_available(s, el, i);
+                            assert(range_on_b(s[i].1.spec_build(el), b));
+                        }
+                        if st.1 {
+                            lemma_forest_on_b_push(prev.0, GTree { range: st.0, children: ch.0 }, b);
+                            lemma_forest_on_b_add(prev.1, ch.1, b);
+                        } else {
+                            lemma_forest_on_b_push(prev.1, GTree { range: st.0, children: ch.1 }, b);
+                            lemma_forest_on_b_add(prev.0, ch.0, b);
+                        }
+                    },
+                    None => {
+                        lemma_forest_on_b_add(prev.0, ch.0, b);
+                        lemma_forest_on_b_add(prev.1, ch.1, b);
+                    },
+                }
+            },
+        }
+    } else {
+        assert forall|x: usize| !forest_endpoint(Seq::<GTree>::empty(), x) by {}
+    }
+}
+
+// ---- size of the forests ----
+pub open spec fn count_elements(parts: Seq<crate::parser::ContentPart>) -> nat
+    decreases parts,
+{
+    if parts.len() == 0 { 0 } else {
+        count_elements(parts.drop_last()) + (match parts.last() { crate::parser::ContentPart::Element(el) => 1 + count_elements(el.children@), _ => 0 })
+    }
+}
+pub proof fn lemma_forest_size_add(f: Seq<GTree>, g: Seq<GTree>)
+    ensures forest_size(f + g) == forest_size(f) + forest_size(g),
+    decreases g.len(),
+{
+    if g.len() == 0 { assert(f + g =~= f); }
+    else {
+        assert((f + g).drop_last() =~= f + g.drop_last());
+        assert((f + g).last() == g.last());
+        lemma_forest_size_add(f, g.drop_last());
+    }
+}
+pub proof fn lemma_forest_size_push(f: Seq<GTree>, t: GTree)
+    ensures forest_size(f.push(t)) == forest_size(f) + 1 + forest_size(t.children),
+{
+    assert(f.push(t).drop_last() =~= f);
+    assert(f.push(t).last() == t);
+}
+pub proof fn lemma_collect_size(r: Remover, parts: Seq<crate::parser::ContentPart>, pending: bool)
+    ensures forest_size(collect_spec(r, parts, pending).0) + forest_size(collect_spec(r, parts, pending).1) <= count_elements(parts),
+    decreases parts,
+{
+    if parts.len() > 0 {
+        let g = parts.drop_last();
+        lemma_collect_size(r, g, pending);
+        let prev = collect_spec(r, g, pending);
+        match parts.last() {
+            crate::parser::ContentPart::Text(_) => {},
+            crate::parser::ContentPart::Element(el) => {
+                lemma_collect_size(r, el.children@, pending);
+                let ch = collect_spec(r, el.children@, pending);
+                match elem_status(r, el, pending) {
+                    Some(st) => {
+                        if st.1 { lemma_forest_size_push(prev.0, GTree { range: st.0, children: ch.0 }); lemma_forest_size_add(prev.1, ch.1); }
+                        else { lemma_forest_size_push(prev.1, GTree { range: st.0, children: ch.1 }); lemma_forest_size_add(prev.0, ch.0); }
+                    },
+                    None => { lemma_forest_size_add(prev.0, ch.0); lemma_forest_size_add(prev.1, ch.1); },
+                }
+            },
+        }
+    }
+}
+/// well-formed parts in [a, b] contain at most b - a elements (every element owns at least the first byte of its opening tag)
+pub proof fn lemma_count_elements(parts: Seq<crate::parser::ContentPart>, a: int, b: int)
+    requires parts_wf(parts, a, b), a <= b,
+    ensures count_elements(parts) <= b - a,
+    decreases parts,
+{
+    if parts.len() > 0 {
+        let n = parts.len() as int;
+        let m = if n > 1 { part_hi(parts[n - 2]) } else { a };
+        lemma_parts_wf_prefix(parts, a, b);
+        lemma_count_elements(parts.drop_last(), a, m);
+        assert(parts.last() == parts[n - 1]);
+        match parts.last() {
+            crate::parser::ContentPart::Element(el) => {
+                lemma_count_elements(el.children@, el.start_token.byte_end as int, el.end_token.byte_start as int);
+            },
+            _ => {},
+        }
+    }
+}
